@@ -8,21 +8,43 @@ COQ_PRELUDE = I.COQ_PRELUDE
 COQ_CHECK = "check_c04"
 COQ_CASE_TYPE = "case_t"
 TRUSTED = I.TRUSTED
-ASSUMPTIONS = ["main sampler yields len(sampler) indices per epoch", "Python int arithmetic = Z arithmetic"]
+ASSUMPTIONS = ["main sampler yields len(sampler) indices per epoch", "Python int arithmetic = Z arithmetic",
+               "the main sampler's order in an epoch is a function of the epoch it holds when its iteration starts "
+               "(__iter__ call, eager samplers) or when the first index is pulled (generators)"]
 RULE = ("random geometries N in 1..40 (thorough ..79, some 80..300 with up to 6 configs), B<=N incl. 1 and N, drop_last "
         "on/off, drop_last_batch_size multiples of B, three budget kinds around multiples of epoch/update/batch sizes, "
         "0-4 configs (some with an order that changes on every pass), optional resume; plus: constructor-argument "
         "mutations (invalid batch sizes / drop_last_batch_size / budgets / configs / several checkpoints), several "
         "budgets at once (assigned after construction), the real DataLoader with num_workers=0 (thorough: also 2); "
+        "main / side samplers in a lazy (generator) and an eager (order fixed in __iter__) flavour, 5% torch "
+        "DistributedSampler(shuffle=True) mains, main sampler objects holding a stale epoch; set_epoch and __iter__ "
+        "calls logged as events; object histories (earlier complete / abandoned iterations of the same object, other "
+        "InterleavedSamplers with other batch sizes / budgets / checkpoints on the same main sampler and config "
+        "objects, foreign set_epoch calls), every iteration of the history compared with a fresh model; "
         "non-trivial = at least 2 updates; distinct by (N,B,drop_last,D,budget,start,#configs,variant)")
 search_cases = I.search_cases
-shrink = I.shrink
 run_impl = I.run_impl
 
 
 def gen_cases(rng, tier):
     out = I.gen_cases(rng, tier)
     n_mut, n_multi, n_loader = (120, 60, 12) if tier == "quick" else (1200, 600, 60)
+    # objects with a history; epoch-dependent orders favoured (what a wrongly timed announcement changes)
+    for k in range(120 if tier == "quick" else 1500):
+        c = I.gen_history_case(rng, size="mid" if (tier == "thorough" and k % 5 == 0) else "small")
+        if c["perm_seed"] is None and rng.random() < 0.6:
+            c["perm_seed"] = rng.randint(0, 999)
+        out.append(c)
+    # torch's DistributedSampler(shuffle=True) as main sampler over several epochs, fresh and resumed
+    k = 0
+    while k < (16 if tier == "quick" else 150):
+        c = I.gen_bounded(rng)
+        if c["budget"][1] == 0 or c.get("mut"):
+            continue
+        c["main_kind"], c["dsN"], c["pre_epoch"] = "torch", c["N"], c["pre_epoch"] or 0
+        c["perm_seed"] = rng.randint(0, 999)
+        out.append(c)
+        k += 1
     # constructor arguments the assertions are about
     for _ in range(n_mut):
         c = I.gen_bounded(rng)
@@ -63,12 +85,15 @@ def coq_case(case, obs):
 
 
 def main_proj(case, log):
-    return [ev[:3] for ev in log if ev[0] == "E" or (ev[0] == "Y" and ev[2] < case["dsN"])]
+    return [ev[:3] for ev in log if ev[0] in ("E", "I") or (ev[0] == "Y" and ev[2] < case["dsN"])]
 
 
 def oracle(case, obs):
     if "harness_exception" in obs:
         return "harness exception: " + obs["harness_exception"] + obs.get("tb", "")
+    msg = I.history_violation(case, obs, main_proj, "main stream (set_epoch / iter calls and main indices)")
+    if msg:
+        return msg
     e0 = I.start_epoch_of(case)
     if isinstance(e0, str) or obs["result"] in ("NotImplementedError",):
         return None  # the constructor's answer to its arguments / a checkpoint: correspondence with the model, C06
@@ -82,7 +107,8 @@ def oracle(case, obs):
     a, b = main_proj(case, exp), main_proj(case, obs["log"])
     if a != b:
         k = next((i for i in range(min(len(a), len(b))) if a[i] != b[i]), min(len(a), len(b)))
-        return (f"main stream differs from the epoch-wise concatenation cut by batch size at event {k}: "
+        return (I.items_tag(a, b) + f"main stream (E = set_epoch(e) received, I = iter(main_sampler) called while the sampler held e, "
+                f"Y = yielded) differs from the epoch-wise concatenation cut by batch size at event {k}: "
                 f"expected {a[k:k + 6]} got {b[k:k + 6]} (expected {len(a)} events, got {len(b)})")
     if obs.get("batches") == "AssertionError":
         return "batch sampler's final assertion fired: stream did not end on a batch boundary"
@@ -154,6 +180,16 @@ def features(case, obs):
     yield "mut=%s" % (case["mut"][0] if case.get("mut") else None)
     yield "loader=%s" % case.get("loader")
     yield "N>=80=%s" % (case["N"] >= 80)
+    yield "main_kind=%s" % case.get("main_kind", "lazy")
+    yield "pre_epoch=%s" % ("none" if case.get("pre_epoch") is None else "held")
+    yield "eager_sides=%d" % sum(1 for s in case["sides"] if s.get("eager"))
+    sc = case.get("scenario") or []
+    yield "history=%s" % ("none" if len(sc) <= 2 else "%d+ steps" % min(len(sc) - 2, 4))
+    if len(sc) > 2:
+        yield "history:others=%d" % len(case.get("others") or [])
+        yield "history:earlier_iterations_of_same_object=%d" % sum(1 for st in sc[:-1] if st[0] == "iter" and st[1] == 0)
+        yield "history:abandoned=%d" % sum(1 for st in sc[:-1] if st[0] == "iter" and st[2] is not None)
+        yield "history:foreign_set_epoch=%d" % sum(1 for st in sc if st[0] == "set_epoch")
 
 
 def nontrivial_key(case, obs):
@@ -162,4 +198,8 @@ def nontrivial_key(case, obs):
         return None
     return (case["N"], case["B"], case["drop_last"], case["D"], tuple(case["budget"]),
             tuple(case["start"] or ()), len(case["sides"]),
-            tuple(sorted((case.get("post_budget") or {}).items(), key=str)), case.get("loader"))
+            tuple(sorted((case.get("post_budget") or {}).items(), key=str)), case.get("loader"),
+            case.get("main_kind", "lazy"), len(case.get("scenario") or []))
+
+
+shrink = I.shrink_keeping(oracle, run_impl)
